@@ -1,8 +1,9 @@
 (* C17 — findings are a function of the sources.  Property theorems only.
    Model.Runner (see C03.v) is the report path with the stage outputs as data;
    Model.RunnerSrc puts the source level on top of it: the pass results of a
-   definition are a FUNCTION of the answers to the lookups its passes make, so
-   that "definitions it does not reference" has a meaning in the model.
+   definition are a FUNCTION of the answers to the lookups its passes make (a
+   modelling assumption, see "THE MODELLED INTERFACE" below), so that
+   "definitions it does not reference" has a meaning in the model.
    Proofs.DesugarOrder covers the HashMap loops of remove_syntactic_sugar over
    Model.Desugar (the mirror of C18).  These theorems cover ALL iteration
    orders of the name maps, all lookup sequences and all orders of the
@@ -45,15 +46,29 @@ Print Assumptions C17_lookups_keep_invariant.
 
 (* ---- the source level: what "references" means, and what follows from it ---------- *)
 
-(* the findings of a definition (CFG/SSA reports, then the error or the pass
-   reports) are a function of its own source and of the ANSWERS to the lookups
-   its passes make: two libraries that answer those lookups alike give the same
-   findings, whatever else they contain *)
-Theorem C17_findings_function_of_lookup_answers : forall ds1 ds2 d,
-  (forall n, In n (s_refs d) -> answer_of ds1 n = answer_of ds2 n) ->
-  produced_def (inst ds1 d) = produced_def (inst ds2 d).
-Proof. exact findings_function_of_answers. Qed.
-Print Assumptions C17_findings_function_of_lookup_answers.
+(* THE MODELLED INTERFACE.  In Model.RunnerSrc the passes of a definition are a
+   field [s_pass : list answer -> list report]: they receive NOTHING but the
+   answers to the lookups [s_refs] (an answer = the output signals of the looked-up
+   template with their numbers of dimensions, or None).  "Findings depend on other
+   definitions only through the answers to the lookups" is therefore true in the
+   model BY CONSTRUCTION; it is not a theorem here (the one-line lemma
+   Proofs.RunnerSrcProofs.findings_function_of_answers is kept as a lemma, not as an
+   obligation).  It is an ASSUMPTION about the Rust passes, and it is what check (3)
+   of lib/props/C17.py evaluates on every run: harness `c17 deps` records, through
+   a wrapper around the real AnalysisContext, the lookups each definition's passes
+   make and exactly that summary of each answer; findings grouped by (own source,
+   lookups with answers) must coincide across projects, the number of groups that can
+   tell (met in two projects, with lookups; with a looked-up definition whose SOURCE
+   differs) is recorded and a run with fewer than 5 is a violation.
+
+   CONSEQUENCES OF THE INTERFACE (they hold for the real tool only as far as that
+   assumption does): C17_findings_unchanged_by_unreferenced,
+   C17_findings_unchanged_by_reordering, and the whole-project theorems
+   C17_unreferenced_definitions_irrelevant, C17_included_definitions_irrelevant,
+   C17_definitions_reordered below.  What they add to the interface is how the
+   ANSWERS behave: [answer_of] over an extended / permuted library, and (for the
+   whole-project ones) that the runner's caches give those answers in every state
+   and that the display is assembled per definition. *)
 
 (* definitions that [d] does not look up may be added (read left to right) or
    removed (right to left) without changing the findings of [d] *)
@@ -62,14 +77,6 @@ Theorem C17_findings_unchanged_by_unreferenced : forall ds extra d,
   produced_def (inst (ds ++ extra) d) = produced_def (inst ds d).
 Proof. exact findings_unchanged_by_unreferenced. Qed.
 Print Assumptions C17_findings_unchanged_by_unreferenced.
-
-(* the same with the weaker-looking hypothesis of the property text: the
-   added / removed definitions are outside the TRANSITIVE lookup set of [d] *)
-Theorem C17_findings_unchanged_outside_transitive_lookups : forall ds extra d,
-  (forall x, In x extra -> ~ reaches (ds ++ extra) d x) ->
-  produced_def (inst (ds ++ extra) d) = produced_def (inst ds d).
-Proof. exact findings_unchanged_outside_transitive_lookups. Qed.
-Print Assumptions C17_findings_unchanged_outside_transitive_lookups.
 
 (* the maps enumerated in another order (definitions reordered in their files,
    files given in another order) *)
